@@ -34,6 +34,7 @@ ChildAtoms == {ChText(<<"a">>), ChText(<<"sp">>), ChText(<<"lf", "sp">>), ChExpr
                ChExpr(Call("f1", Arr(<<Str(<<113>>)>>))), ChEmpty, ChComment,
                ChSpread(Ident("xs", FALSE, Arr(<<Opq("e1"), Opq("e2")>>))),
                ChSpread(Ident("xs0", FALSE, Arr(<<>>))),
+               ChSpread(ArrLit(<<X2, Lit(Str(<<113>>))>>)), ChSpread(ArrLit(<<>>)),       \* {...[x2, "q"]}, {...[]}
                ChElem(B), ChElem(Elem(TagFrag, <<>>, <<ChExpr(X2)>>))}
 Hosts == {TagHtml("div"), TagFragmentName, TagFrag, TagKeepAlive, TagCustom("i-foo")}
 
